@@ -1,6 +1,6 @@
 (* C02 — kept spans are forwarded exactly once, dropped spans never, none lost.
    Statements only; proofs in Proofs/CollectorAbs.v, Proofs/CollectorRef.v, Proofs/CollectorTime.v. *)
-From Refinery Require Import Lib.Base Model.Collector Proofs.CollectorAbs Proofs.CollectorRef Proofs.CollectorTime Gen.GenC01.
+From Refinery Require Import Lib.Base Model.Collector Proofs.CollectorAbs Proofs.CollectorRef Proofs.CollectorTime Proofs.CollectorLive Proofs.CollectorSys Gen.GenC01.
 
 (* Exactly once / nothing invented.  For every sampler, dry-run setting, config and EVERY history of
    span arrivals, ticks, ejections, reloads and forgotten decisions (forgetting included: no premise
@@ -55,6 +55,17 @@ Theorem C02_system_kept_all_dropped_none :
 Proof. exact sys_all_or_none. Qed.
 Print Assumptions C02_system_kept_all_dropped_none.
 
+(* Exactly once in the product of workers, for ANY worker count and ANY addressing of the ops (no routing
+   premise at all): with unique (trace, span id) pairs in the whole history, the sequence of spans handed
+   to the transmission by all workers together has no duplicates and contains only accepted spans. *)
+Theorem C02_system_exactly_once_nothing_invented :
+  forall (sampler : N -> list span -> bool) (dry : bool) (n : nat) (c : cfg) (ops : list sop),
+  NoDup (sys_span_keys ops) ->
+  NoDup (map proj (concat (snd (sys_run sampler dry (repeat (winit c) n) ops)))) /\
+  (forall t s, forwarded (snd (sys_run sampler dry (repeat (winit c) n) ops)) t s -> sys_accepted ops t s).
+Proof. exact sys_exactly_once. Qed.
+Print Assumptions C02_system_exactly_once_nothing_invented.
+
 (* Eventually decided.  One tick after every deadline removes min(MaxExpiredTraces', |buffer|)
    traces, so k ticks the code can perform (for any tie-breaking of the queue) at instants at or
    after every buffered deadline empty a reachable buffer of at most k * MaxExpiredTraces traces
@@ -84,6 +95,22 @@ Theorem C02_due_trace_decided :
   In t ch.
 Proof. exact tick_decides_due. Qed.
 Print Assumptions C02_due_trace_decided.
+
+(* Eventually decided, under arbitrary interleaved traffic.  Follow a buffered trace t whose deadline d
+   has passed.  Whatever happens next — spans of any trace arriving (after d), ejections, reloads (to
+   non-negative timeouts and MaxExpiredTraces = 0 or >= m), forgotten decisions, in any order — as soon
+   as the history contains more than ahead/m send ticks (at instants >= d), where ahead counts the other
+   buffered traces with deadline <= d, some prefix of it has decided t.  (No later arrival can get
+   ahead of t: every deadline written after instant d is later than d.) *)
+Theorem C02_eventually_decided_interleaved :
+  forall (sampler : N -> list span -> bool) (dry : bool) (t : N) (d m : Z) (ops : list op) (w : wstate),
+  0 < m ->
+  NoDup (akeys (w_buf w)) -> cfg_nonneg (w_cfg w) -> me_ok m (w_cfg w) -> waiting t d w ->
+  Forall (op_after d m) ops -> all_valid sampler dry w ops ->
+  Z.of_nat (ahead t d (w_buf w)) < m * n_ticks ops ->
+  exists k, alookup t (w_buf (fst (run sampler dry w (firstn k ops)))) = None.
+Proof. exact due_trace_decided_interleaved. Qed.
+Print Assumptions C02_eventually_decided_interleaved.
 
 Example C02_code_shape :
   md_records_decision && tick_takes_expired_with_max && collect_tick_runs_send_expired_at_now &&
